@@ -3,3 +3,5 @@ pub mod cli;
 pub mod mock;
 pub mod modrec;
 pub mod codecrec;
+pub mod macsim;
+pub mod macdrv;
